@@ -28,7 +28,7 @@ class RunResult:
         return {3: "refused", 4: "wedge", 5: "dead", 1: "fatal", 2: "panic"}.get(self.rc, "infra")
 
 
-def run_one(vh, doc, work, name, extra=(), timeout=300, dump=False):
+def run_one(vh, doc, work, name, extra=(), timeout=300, dump=False, env=None):
     os.makedirs(work, exist_ok=True)
     sp = os.path.join(work, name + ".json")
     tp = os.path.join(work, name + ".ndjson")
@@ -41,7 +41,7 @@ def run_one(vh, doc, work, name, extra=(), timeout=300, dump=False):
         cmd += ["-dump", r.dump]
     try:
         p = subprocess.run(cmd, stdout=subprocess.PIPE, stderr=subprocess.PIPE, timeout=timeout,
-                           env=dict(os.environ, LXRBITSIZE="8"))
+                           env=dict(os.environ, LXRBITSIZE="8", **(env or {})))
         r.rc = p.returncode
         r.err = p.stderr.decode("utf8", "replace")[-3000:]
     except subprocess.TimeoutExpired:
